@@ -40,6 +40,9 @@ func readFull(ep io.Reader, n int) ([]byte, error) {
 	for got < n {
 		m, err := ep.Read(buf[got:])
 		got += m
+		if got == n {
+			return buf, nil // a Read may deliver the last bytes together with io.EOF
+		}
 		if err != nil {
 			return buf[:got], err
 		}
